@@ -16,6 +16,7 @@ func init() {
 }
 
 type c03srv struct {
+	proto     string
 	peer      erpc.Peer
 	callRoute string
 	pushRoute string
@@ -76,9 +77,9 @@ func newC03srv(veto string, unknown bool) *c03srv {
 
 // checkWire applies the C03 oracle to the frames the server wrote, for the frames the raw client sent.
 func (s *c03srv) checkWire(sent []world.Frame, raw *vnet.Conn, ctxt string) {
-	out, rest, err := world.ParseFrames(raw.Peer().Written)
+	out, rest, err := world.DecodeFrames(s.proto, raw.Peer().Written)
 	if err != nil || len(rest) != 0 {
-		vsched.Failf("server wrote bytes that are not whole raw frames (err=%v, %d trailing bytes) | %s", err, len(rest), ctxt)
+		vsched.Failf("server wrote bytes that are not whole frames (err=%v, %d trailing bytes) | %s", err, len(rest), ctxt)
 	}
 	replies := map[int32]int{}
 	for _, f := range out {
@@ -147,11 +148,13 @@ var c03Metas = []string{"", "k=v"}
 func c03Frames(p Params) func() {
 	veto := p.Get("veto", "none")
 	unknown := p.Get("unknown", "0") == "1"
+	proto := p.Get("proto", "raw")
 	return func() {
 		begin()
 		s := newC03srv(veto, unknown)
+		s.proto = proto
 		raw, sc := vnet.Pipe(vnet.NewAddr(), vnet.NewAddr())
-		if _, st := s.peer.ServeConn(sc); !st.OK() {
+		if _, st := s.peer.ServeConn(sc, world.Proto(proto)); !st.OK() {
 			vsched.Failf("ServeConn: %v", st)
 		}
 		routes := []string{s.callRoute, s.pushRoute, "/nope", ""}
@@ -162,13 +165,20 @@ func c03Frames(p Params) func() {
 		f.Codec = c03Codecs[vsched.Choose(len(c03Codecs), "codec")]
 		f.Meta = c03Metas[vsched.Choose(len(c03Metas), "meta")]
 		ctxt := f.String()
-		raw.Write(f.Bytes())
+		wire, can := world.EncodeFrame(proto, f)
+		if !can || (proto == "thrift" && (f.Mtype < 1 || f.Mtype > 3)) {
+			// the protocol cannot carry this frame (http: CALL/REPLY only; thrift has no encoding for other types)
+			world.Counter("not_representable")
+			return
+		}
+		raw.Write(wire)
 		vsched.Quiesce()
 		sent := []world.Frame{f}
 		if !raw.PeerClosed() {
 			// the connection stayed up: a well-formed probe call must still be answered exactly once
 			probe := world.Frame{Seq: 8, Mtype: erpc.TypeCall, Method: s.callRoute, Codec: 'j', Body: []byte(`"ret"`)}
-			raw.Write(probe.Bytes())
+			pw, _ := world.EncodeFrame(proto, probe)
+			raw.Write(pw)
 			vsched.Quiesce()
 			sent = append(sent, probe)
 			world.Counter("probed")
@@ -200,11 +210,16 @@ func vetoPrecedesHandler(stage string) bool {
 // c03Pair: two frames back to back (same or different seq) under all interleavings.
 func c03Pair(p Params) func() {
 	kinds := []string{"ret", "block", "err", "panic", "push"}
+	proto := p.Get("proto", "raw")
+	if proto == "http" {
+		kinds = kinds[:4] // no PUSH in the HTTP-style protocol
+	}
 	return func() {
 		begin()
 		s := newC03srv("none", false)
+		s.proto = proto
 		raw, sc := vnet.Pipe(vnet.NewAddr(), vnet.NewAddr())
-		if _, st := s.peer.ServeConn(sc); !st.OK() {
+		if _, st := s.peer.ServeConn(sc, world.Proto(proto)); !st.OK() {
 			vsched.Failf("ServeConn: %v", st)
 		}
 		mk := func(seq int32, kind string) world.Frame {
@@ -218,7 +233,9 @@ func c03Pair(p Params) func() {
 		seq2 := int32(7 + vsched.Choose(2, "sameseq"))
 		f1, f2 := mk(7, k1), mk(seq2, k2)
 		ctxt := f1.String() + " " + f2.String()
-		both := append(f1.Bytes(), f2.Bytes()...)
+		b1, _ := world.EncodeFrame(proto, f1)
+		b2, _ := world.EncodeFrame(proto, f2)
+		both := append(b1, b2...)
 		raw.Write(both)
 		opener := world.Go("opener", func() { s.gate.Open() })
 		vsched.Join(opener)
